@@ -1,6 +1,7 @@
 import Driver.Dwarf
 import GtirbVerif.Model.Dwarf.CfiEval
 import GtirbVerif.Gen.AbiBasic
+import GtirbVerif.Spec.Platform
 
 /-! Line-protocol handler for `evaluate_cfi_directives` (C15). -/
 namespace Driver.Cfi
@@ -78,8 +79,14 @@ def handle (op : String) (j : Json) : Option (Except String Json) :=
   match op with
   | "cfi_eval" => some do
     let abiName ← getStr j "abi"
+    -- return column from the regenerated ABI table; byte order / pointer size
+    -- from the hand-written platform table (SPEC), so that a wrong
+    -- `ABI.byteorder()` shows as a wrong state
     let abi ← match Gen.abiBasic.find? (fun e => e.1 == abiName) with
-      | some e => pure e.2.2.2
+      | some e =>
+        match Std.platform.lookup e.2.1 with
+        | some (bo, ptr) => pure { e.2.2.2 with bo := bo, ptr := ptr }
+        | none => pure e.2.2.2
       | none => throw s!"unknown ABI {abiName}"
     let bl ← (← getArr j "blocks").toList.mapM blockOf
     let (rows, err) := evaluate Gen.exprTable Gen.cfiTable abi bl
